@@ -379,7 +379,8 @@ func runC15(c *Ctx) {
 				okSet := false
 				for _, in := range callsIn(fn, "(*math/big.Int).SetBytes") {
 					a := callCommon(in).Args
-					if a[0] == wr.Val && instrDominates(in, wr.In) {
+					// the stored value is the receiver of SetBytes or its result (SetBytes returns its receiver)
+					if res, _ := in.(ssa.Value); (a[0] == wr.Val || (res != nil && res == wr.Val)) && instrDominates(in, wr.In) {
 						// the bytes are the ones just read from the stream for this serial
 						for _, rd := range callsIn(fn, "encoding/binary.Read") {
 							if mi, ok := callCommon(rd).Args[2].(*ssa.MakeInterface); ok {
